@@ -503,6 +503,19 @@ theorem parseUint_hex8 {v : Nat} (hv : v < 2 ^ 32) : parseUint 16 32 (fmtHex 8 v
     rw [hx] at hp
     simp only [hp, hv, if_true]
 
+theorem parseUint_hexFixed {k v bits : Nat} (hk : 0 < k) (hv : v < 16 ^ k) (hb : v < 2 ^ bits) :
+    parseUint 16 bits (hexFixed k v) = some v := by
+  have hp := parseDigits_hexFixed k v 0
+  rw [Nat.mod_eq_of_lt hv, Nat.zero_mul, Nat.zero_add] at hp
+  unfold parseUint
+  cases hx : hexFixed k v with
+  | nil =>
+    have := hexFixed_length k v
+    rw [hx] at this; simp at this; omega
+  | cons c cs =>
+    rw [hx] at hp
+    simp only [hp, hb, if_true]
+
 theorem parseInt_hexFixed {k v : Nat} (hk : 0 < k) (hv : v < 16 ^ k) (h31 : v < 2 ^ 31) :
     parseInt 16 32 (hexFixed k v) = some (v : Int) := by
   have hp := parseDigits_hexFixed k v 0
@@ -648,7 +661,7 @@ theorem tag_roundtrip {tagNames tagByName : Table} (hb : bijective tagNames tagB
   have h16 : t < 16 ^ 6 := by simpa using ht
   have hhex : tagFromText tagByName (hex0x 6 t) = (t : Int) := by
     simp only [hex0x, tagFromText, fmtHex_of_lt h16]
-    rw [parseInt_hexFixed (by decide) h16 (by omega)]
+    rw [parseUint_hexFixed (by decide) h16 ht]
   unfold tagToText
   cases hl : lookup t tagNames with
   | none => exact hhex
